@@ -241,7 +241,41 @@ def grid(inp):
     return ok, "%s on grids %d and %d: max|diff| %g" % (fn, n1, c * n1, _md(r2[idx], r1) if all(j < len(r2) for j in idx) else -1)
 
 
-NATIVE = {"speriodogram": speriodogram, "speriodogram2d": speriodogram2d, "correlogram": correlogram, "minvar": minvar,
+def datamatrix(inp):
+    """singular values returned by eigen() = those of the full forward-backward matrix"""
+    import spectrum
+    dt = inp["datatype"]
+    for (N, P) in ((128, 8), (150, 20), (40, 6)):
+        x = _data(dict(inp, seed=5), dt, n=N)
+        got, S = spectrum.eigen(x, P, NSIG=2, method="music", NFFT=64)
+        _, S2 = _pseudo(x, P, 2, "music", 8)
+        if not close(S, S2, 1e-8):
+            return False, "N=%d P=%d: singular values %s differ from those of the (2(N-P) x P) data matrix %s" % (
+                N, P, np.round(S[:3], 4).tolist(), np.round(S2[:3], 4).tolist())
+    return True, "singular values match for N-P up to 130"
+
+
+def validate(inp):
+    import spectrum
+    x = _data(inp, inp.get("datatype", "real"), n=32)
+    def outcome(**kw):
+        try:
+            spectrum.eigen(x, 4, NFFT=32, **kw)
+            return "ok"
+        except ValueError:
+            return "ValueError"
+        except AssertionError:
+            return "AssertionError"
+    exp = [(dict(NSIG=2, threshold=0.5), "ValueError"), (dict(NSIG=-1), "ValueError"), (dict(NSIG=4), "ValueError"),
+           (dict(NSIG=5), "ValueError"), (dict(NSIG=0), "ok"), (dict(NSIG=3), "ok"), (dict(NSIG=1, method="capon"), "ValueError")]
+    for kw, want in exp:
+        got = outcome(**kw)
+        if got != want:
+            return False, "eigen(x, 4, %s): %s, expected %s" % (kw, got, want)
+    return True, "argument validation as stated"
+
+
+NATIVE = {"datamatrix": datamatrix, "validate": validate, "speriodogram": speriodogram, "speriodogram2d": speriodogram2d, "correlogram": correlogram, "minvar": minvar,
           "eigen": eigen, "place": place, "grid": grid}
 
 
